@@ -64,6 +64,19 @@ def describe(o):
     }
 
 
+def cancellation(sig, pump, pp):
+    """condition number of the idler-angle formula: (sum of the magnitudes of the terms of `arg`) / arg.  `arg` is a difference
+    of squares of order n^2 that equals |closing vector|^2 (lambda_s / 2 pi)^2; when the signal wavelength approaches the pump
+    wavelength the closing vector is tiny and binary64 loses that many digits (tolerances below scale with it)"""
+    ns, npp, ls, lp, ths = fl(sig["n"]), fl(pump["n"]), fl(sig["lambda"]), fl(pump["lambda"]), fl(sig["theta"])
+    kpp = ls / fl(pp["signed_period"]) if pp["on"] else 0.0
+    r = npp * ls / lp
+    nsz = ns * math.cos(ths)
+    arg = ns * ns + r * r + 2 * (kpp * nsz - r * nsz - kpp * r) + kpp * kpp
+    big = ns * ns + r * r + 2 * (abs(kpp * nsz) + abs(r * nsz) + abs(kpp * r)) + kpp * kpp
+    return big / arg if arg > 0 else float("inf")
+
+
 def kvec(beam, n_hex, omega_hex):
     d = vfr(beam["dir"])
     s = fr(n_hex) * fr(omega_hex) / C_LIGHT
@@ -114,6 +127,19 @@ def oracle(ctx, obs):
         ctx.count(f"pm:{i['pm_type']}")
         ctx.count(f"theta_s:{cls}")
         ctx.count("poling:" + ("off" if not pp["on"] else ("+" if pp["positive"] else "-")))
+        ctx.count("history:" + i.get("history", "none"))
+        if o.get("same_as_direct") is False:
+            ctx.violation("S5", f"a signal beam re-aimed through the setters ({i.get('history')}) differs from a beam constructed with the same final angles",
+                          {"kind": "beam_history", "history": i.get("history")}, d)
+        # stored direction = unit vector of the stored polar angles (catches a stale cached direction)
+        for name, b in (("signal", sig), ("pump", pump)) + ((("idler", idl["beam"]),) if idl["ok"] else ()):
+            if finite(b["phi"], b["theta"], *b["dir"]):
+                ph, th = fl(b["phi"]), fl(b["theta"])
+                want = (math.sin(th) * math.cos(ph), math.sin(th) * math.sin(ph), math.cos(th))
+                got = [fl(x) for x in b["dir"]]
+                if any(abs(g - w) > 1e-14 for g, w in zip(got, want)):
+                    ctx.violation("S5", f"{name}: stored direction {got} is not the unit vector of its stored angles phi = {ph!r}, theta = {th!r} "
+                                  f"(history: {i.get('history')})", {"kind": "direction", "beam": name}, d)
         if not idl["ok"]:
             ctx.violation("S5", f"try_new_optimum refused a signal wavelength longer than the pump wavelength: {idl.get('error')}",
                           {"kind": "error_rule", "got": "err", "want": "ok"}, d)
@@ -198,18 +224,18 @@ def oracle(ctx, obs):
         rep = dict(d, idler_theta_rad=fl(ib["theta"]), idler_phi_rad=phii, idler_direction=[float(x) for x in di],
                    closing_vector=[float(x) for x in q], sin_angle_between=cr, delta_k=[fl(x) for x in dk["center"]],
                    call="IdlerBeam::try_new_optimum(&signal, &pump, &crystal_setup, &pp); delta_k(ws, wi, ..)")
-        par_ok = cr <= 1e-9 and dt > 0
+        par_ok = cr <= 1e-9 + 1e-14 * cancellation(sig, pump, pp) and dt > 0
         if not par_ok:
             ctx.violation("S5", f"optimum idler is not parallel to the forward closing vector kp - ks - k_eff z: |d_i x q|/|q| = {cr:.3e} "
                           f"(signal polar angle {ths:+.4f} rad, idler polar angle {fl(ib['theta']):+.4f} rad, {i['crystal']} {i['pm_type']})",
-                          {"kind": "parallel", "theta_s": cls}, rep)
+                          {"kind": "parallel"}, rep)
         if ths == 0 and not (fl(ib["theta"]) == 0 and [fl(x) for x in ib["dir"]] == [0.0, 0.0, 1.0]):
             ctx.violation("S5", "collinear signal but the optimum idler is not collinear", {"kind": "collinear"}, rep)
         if par_ok:
             dkc = vfr(dk["center"])
             res = norm(cross(dkc, di))
             if res > 1e-8 * kpn:
-                ctx.violation("S5", f"residual mismatch is not parallel to the idler: |dk x d_i| = {res:.3e} rad/m", {"kind": "residual_parallel", "theta_s": cls}, rep)
+                ctx.violation("S5", f"residual mismatch is not parallel to the idler: |dk x d_i| = {res:.3e} rad/m", {"kind": "residual_parallel"}, rep)
     return good
 
 
@@ -227,20 +253,8 @@ def vec_term(v):
     return f"({cq(v[0])}, {cq(v[1])}, {cq(v[2])})"
 
 
-def extra_signum():
-    """does the translated idler angle carry the factor signum(theta_s)?  (the case generator must know which sign of
-    sin(theta_i) the code under test prescribes for a negative signal angle: DESIGN 2.1, `the generator knows the branch`)"""
-    try:
-        s = open(os.path.join(COQ, "Gen", "Idler.v")).read()
-    except OSError:
-        return True
-    m = re.search(r"Definition idler_theta .*?\n\n", s, re.S)
-    return bool(m) and "(signum (theta_s / 1))" in m.group(0)
-
-
 def correspondence(ctx, cases):
     goals, meta = [], {}
-    with_sign = extra_signum()
 
     def add(o, what, goal):
         cid = f"c{o['i']}_{what}"
@@ -255,14 +269,15 @@ def correspondence(ctx, cases):
         THS, THI = cq(sig["theta"]), cq(ib["theta"])
         ths = fl(sig["theta"])
         cp = i["counter_propagation"]
-        neg = not (ths >= 0 and sig["theta"] != "0x8000000000000000")
-        sgn = "(-1)" if (neg and with_sign) else "1"
-        side = f"{THS} < 0" if neg else f"0 <= {THS}"
         beta = "(-1)" if cp else "1"
+        cn = cancellation(sig, pump, pp)
+        if not cn < 1e9:
+            continue  # closing vector numerically zero: the formula is 0/0-conditioned, nothing to compare
+        ttol = coq_q(Fraction(1, 10**12) + Fraction(cn) / 10**15)
         # idler polar angle, inverted form (Proofs/C03_tac.v: theta_case_sound, angle_unique)
         add(o, "theta",
             f"(let v := idler_val {NS} {THS} (idler_arg {NS} {NP} {LS} {LP} (pp_k_pp {PP} {LS}) {THS}) in "
-            f"Rabs v <= 1 /\\ 0 < cos {THS} /\\ {side} /\\ Rabs (sin {THI} - {sgn} * v) <= 1e-12 /\\ 0 <= {beta} * cos {THI} /\\ - PI < {THI} <= PI)")
+            f"Rabs v <= 1 /\\ 0 < cos {THS} /\\ Rabs (sin {THI} - v) <= {ttol} /\\ 0 <= {beta} * cos {THI} /\\ - PI < {THI} <= PI)")
         # directions
         for nm, b in (("sdir", sig), ("idir", ib)):
             g = " /\\ ".join(f"Rabs ({ax} (direction_from_polar {cq(b['phi'])} {cq(b['theta'])}) - {cq(b['dir'][j])}) <= 1e-15"
@@ -334,7 +349,7 @@ def run(ctx):
     if not msgs:
         okf, ff, _ = coq_build(ctx, ["Findings/C03_negative_theta.vo"])
         if not okf:
-            ctx.note("finding F3 (negative signal polar angle) no longer reproduces on the model: Findings/C03_negative_theta.v does not compile")
+            ctx.note("Findings/C03_negative_theta.v (historical record of the fixed finding F3, against a pinned copy of the old formula) does not compile")
     n = 110 if ctx.tier == "quick" else 880
     obs = run_harness(ctx, binp, ["c03", ctx.seed, n])
     cases = oracle(ctx, obs)
@@ -363,7 +378,7 @@ def run(ctx):
         "delta_k = kp - ks - ki - k_eff z, k = dir n omega/c, k_eff = 2 pi/(sign period)": "proved (definition translated from source) + checked exactly on outputs",
         "1/lambda_i = 1/lambda_p - 1/lambda_s": "proved", "polarization from the type": "proved (tables translated, cross-checked with the type names)",
         "azimuth opposite": "proved", "signal's waist": "proved (structural: Beam::new(.., signal.waist()))",
-        "idler direction parallel to a forward closing vector": "proved for signal polar angle in [0, pi/2); REFUTED for every negative angle (Findings/C03_negative_theta.v)",
+        "idler direction parallel to a forward closing vector": "proved for every signal polar angle in (-pi/2, pi/2)",
         "collinear -> collinear": "proved", "residual mismatch parallel to idler": "proved (same scope)",
         "error when ls <= lp": "proved (iff)", "binary64 evaluation": "measured (1e-9 |kp| on delta_k, 1e-12 on sin(theta_i))",
         "index along a direction": "oracle (property C02)"}
